@@ -33,6 +33,10 @@ pub struct CfgOpts {
     /// per mille of static keys produced by snow's own Builder::generate_keypair (through the
     /// RNG seam) instead of the harness
     pub snow_keygen: u32,
+    /// use exactly this protocol name (systematic enumerations)
+    pub force_name: Option<String>,
+    /// use exactly this backend on both nodes
+    pub force_backend: Option<Backend>,
 }
 
 impl Default for CfgOpts {
@@ -46,6 +50,8 @@ impl Default for CfgOpts {
             late_psk: 0,
             only_dh: None,
             snow_keygen: 0,
+            force_name: None,
+            force_backend: None,
         }
     }
 }
@@ -87,18 +93,27 @@ pub fn gen_name(rng: &mut Rng, idx: u64, only_dh: Option<DhK>) -> (String, Strin
         _ => mods = (0..=nmsg as u8).collect(),
     }
     let pad = rng.chance(1, 40);
-    let modstr: Vec<String> = mods
+    let mut modstr: Vec<String> = mods
         .iter()
         .map(|m| if pad { format!("psk{:03}", m) } else { format!("psk{m}") })
         .collect();
-    let name = format!(
-        "Noise_{}{}_{}_{}_{}",
-        base,
-        modstr.join("+"),
-        dh.name(),
-        cipher.name(),
-        hash.name()
-    );
+    let mk = |modstr: &Vec<String>| {
+        format!("Noise_{}{}_{}_{}_{}", base, modstr.join("+"), dh.name(), cipher.name(), hash.name())
+    };
+    let mut name = mk(&modstr);
+    // rare branch: protocol name exactly HASHLEN (or HASHLEN +/- 1) bytes long. For 32-byte hashes
+    // this happens naturally; for 64-byte hashes zero-padded psk indices (accepted by snow's
+    // parser, read as the number by the model) are used to reach 63 / 64 / 65.
+    if !modstr.is_empty() && rng.chance(1, 6) {
+        let hl = hash.hash_len();
+        let want = hl - 1 + rng.usize_below(3);
+        if name.len() < want && want - name.len() < 40 {
+            let zeros = "0".repeat(want - name.len());
+            let m0 = mods[0];
+            modstr[0] = format!("psk{zeros}{m0}");
+            name = mk(&modstr);
+        }
+    }
     let pskclass = ["none", "none", "single", "multi", "all"][k];
     let stratum = format!("{base}/{pskclass}/{}/{}/{}", dh.name(), cipher.name(), hash.name());
     (name, stratum)
@@ -195,8 +210,17 @@ pub fn gen_session(rng: &mut Rng, name: &str, opts: &CfgOpts, seed_salt: u64) ->
 }
 
 pub fn gen_cfg(rng: &mut Rng, idx: u64, scenario: &str, opts: &CfgOpts) -> RunCfg {
-    let (name, stratum) = gen_name(rng, idx, opts.only_dh);
-    let (a, b) = gen_session(rng, &name, opts, 1);
+    let (mut name, mut stratum) = gen_name(rng, idx, opts.only_dh);
+    if let Some(n) = &opts.force_name {
+        name = n.clone();
+        let parts: Vec<&str> = n.split('_').collect();
+        stratum = format!("{}/forced/{}/{}/{}", parts[1], parts[2], parts[3], parts[4]);
+    }
+    let (mut a, mut b) = gen_session(rng, &name, opts, 1);
+    if let Some(bk) = opts.force_backend {
+        a.backend = bk;
+        b.backend = bk;
+    }
     let mut nodes = vec![a.clone(), b.clone()];
     for s in 1..opts.sessions {
         if opts.parallel_same_statics {
@@ -707,8 +731,14 @@ impl<'a> Driver<'a> {
             let which = match self.rng.below(6) {
                 0 | 1 => RekeyKind::Outgoing,
                 2 | 3 => RekeyKind::Incoming,
-                4 => RekeyKind::ManualI(self.rng.below(3) as u8),
-                _ => RekeyKind::ManualR(self.rng.below(3) as u8),
+                4 => RekeyKind::ManualI(self.rng.below(4) as u8),
+                _ => {
+                    if self.rng.chance(1, 3) {
+                        RekeyKind::ManualBoth(self.rng.below(4) as u8)
+                    } else {
+                        RekeyKind::ManualR(self.rng.below(4) as u8)
+                    }
+                },
             };
             let n = if self.rng.chance(1, 2) { snd } else { rcv };
             step!(self, Op::Rekey { node: n as u8, which });
@@ -721,8 +751,14 @@ impl<'a> Driver<'a> {
                 step!(self, Op::Read { node: rcv as u8, src: Src::Next, mutation: Mutation::None, out: Buf::Ample, nonce: NonceSel::Auto });
             }
             if self.rng.chance(1, 3) {
-                let id = self.rng.below(3) as u8;
-                let which = if self.w.cfg.nodes[snd].initiator { RekeyKind::ManualI(id) } else { RekeyKind::ManualR(id) };
+                let id = self.rng.below(4) as u8;
+                let which = if self.rng.chance(1, 4) {
+                    RekeyKind::ManualBoth(id)
+                } else if self.w.cfg.nodes[snd].initiator {
+                    RekeyKind::ManualI(id)
+                } else {
+                    RekeyKind::ManualR(id)
+                };
                 step!(self, Op::Rekey { node: snd as u8, which });
                 step!(self, Op::Rekey { node: rcv as u8, which });
             } else {
